@@ -296,7 +296,10 @@ pub fn mon_returned(case: &Case, rec: &Record, j: &Judged) -> Option<Violation> 
         return bad("session", "session data differs from the provider's".into());
     }
     // folded?
-    let fold_known = !matches!(&a.verdict, Verdict::DontCare { stage: Stage::Query, .. }) && a.cpath.is_some();
+    // An accepted request whose folded URI does not fit into http::Uri is still bound by the property: whatever is
+    // returned must carry exactly the merged parameters (acceptance itself is not judged there).
+    let oversize = matches!(&a.verdict, Verdict::DontCare { why, .. } if why.contains("too long"));
+    let fold_known = a.cpath.is_some() && (oversize || !matches!(&a.verdict, Verdict::DontCare { stage: Stage::Query, .. }));
     if !fold_known {
         return None;
     }
